@@ -120,6 +120,19 @@ class Taint:
         return out
 
 
+_LIVE = [None]
+
+
+def origins_under(b, operand, live):
+    """origins() with definitions restricted to the blocks in `live` (e.g. the blocks reachable when a
+    `match` on an unchanging value takes one particular arm everywhere: mir.reach_under)"""
+    _LIVE[0] = live
+    try:
+        return origins(b, operand)
+    finally:
+        _LIVE[0] = None
+
+
 def origins(b, operand, depth=0, seen=None):
     """The defining events a value can come from, following copies, references, locals with several
     definitions and enum / tuple aggregates that are taken apart again (`Some(x)` ... `(v as
@@ -141,6 +154,8 @@ def _origins(b, l, projs, depth, seen):
     if 1 <= l <= b.arg_count and not [d for d in b.defs.get(l, []) if d[1] == 'call' or not d[2]['lhs']['p']]:
         return {('arg', l)}
     ds = [d for d in b.defs.get(l, []) if d[1] == 'call' or not d[2]['lhs']['p']]
+    if _LIVE[0] is not None and len(ds) > 1:
+        ds = [d for d in ds if d[0] in _LIVE[0]] or ds
     if not ds:
         return {'other'}
     for d in ds:
